@@ -210,6 +210,26 @@ pub fn eval(op: &str, a: &[&str]) -> Option<String> {
             }
             "ok".into()
         }
+        "p.c19.keywords" => {
+            // a[0] target, a[1] a reserved word k of the target: a program that uses k as a type name, a field label, a variant tag and a
+            // method name must not have ONE more bare occurrence of k in its output than the same program with a neutral name
+            let k = a[1];
+            let candid_kw = crate::ops::c15::KEYWORDS.contains(&k);
+            let prog2 = |n: &str, as_type: bool| -> String {
+                let l = crate::ops::c15::quote_name(n);
+                let tyname = if !as_type || candid_kw || !is_ident(n) { "Tq".to_string() } else { n.to_string() };
+                let meth = if is_ident(n) { l.clone() } else { "mq".to_string() };
+                format!("type {t} = record {{ {l} : nat; b : variant {{ {l}; c : opt {t} }} }};\ntype Uq = vec {t};\nservice : {{ {m} : ({t}) -> (Uq) }}\n", t = tyname, l = l, m = meth)
+            };
+            let count = |text: &str, w: &str| strip(text, a[0]).split(|c: char| !(c.is_alphanumeric() || c == '_' || c == '#' || c == '$')).filter(|t| *t == w).count();
+            // (a word the Candid grammar itself reserves cannot name a type: it is then used as label, tag and method only)
+            let as_type = load_full(&prog2(k, true)).is_ok();
+            let prog = |n: &str| prog2(n, as_type);
+            let with_k = match load_full(&prog(k)) { Ok(c) => compile_target(a[0], &c), Err(e) => return Some(format!("FAIL not a checked program: {}", e)) };
+            let neutral = match load_full(&prog("zzq")) { Ok(c) => compile_target(a[0], &c), Err(e) => return Some(format!("FAIL {}", e)) };
+            let (ck, cn) = (count(&with_k, k), count(&neutral, k));
+            if ck == cn { "ok".into() } else { format!("FAIL the reserved word {} appears {} times as a bare token, {} times when the program does not use it", k, ck, cn) }
+        }
         "p.c19.closed.js" => {
             // the JavaScript evaluates: every name it uses is declared before use or declared recursive first
             let env = env_from_sx(a[0]); let actor = actor_from(a[1]);
@@ -239,13 +259,25 @@ fn docs_program(env: &Env, actor: &Option<T>) -> (String, usize) {
     (s, k)
 }
 
+/// turn the main service into a constructor whose 2-3 init arguments mention the same definitions
+fn share_init_args(r: &mut Rng, env: &Env, actor: &Option<T>) -> Option<T> {
+    if env.is_empty() { return None; }
+    let body = match actor.as_ref()? { T::Class(_, b) => (**b).clone(), o => o.clone() };
+    let d = |r: &mut Rng| T::var(&env[r.below(env.len() as u64) as usize].0);
+    let d0 = d(r);
+    let mut args = vec![d0.clone(), T::opt(d0.clone())];
+    if r.coin(1, 2) { args.push(T::rec(vec![(0, d(r)), (1, T::vec(d0))])); }
+    Some(T::Class(args, Box::new(body)))
+}
+
 pub fn generate(prop: &str, thorough: bool, r: &mut Rng, em: &mut Emit) {
     let scale = if thorough { 10 } else { 1 };
     match prop {
         "C17" => {
             for _ in 0..(60 * scale) {
-                let (env, actor) = gen_program(r, true);
+                let (env, mut actor) = gen_program(r, true);
                 if actor.is_none() { continue; }
+                if r.coin(1, 3) { if let Some(a) = share_init_args(r, &env, &actor) { actor = Some(a); em.stat("init-args-share-definitions"); } }
                 let nt = !env.is_empty();
                 em.stat(&format!("defs.{}", env.len().min(5)));
                 em.case_nt("c17.order", &[env_sx(&env), actor_sx(&actor)], nt);
@@ -257,7 +289,8 @@ pub fn generate(prop: &str, thorough: bool, r: &mut Rng, em: &mut Emit) {
         _ => { // C19
             for _ in 0..(40 * scale) {
                 let wa = r.coin(3, 4);
-                let (env, actor) = gen_program(r, wa);
+                let (env, mut actor) = gen_program(r, wa);
+                if r.coin(1, 3) { if let Some(a) = share_init_args(r, &env, &actor) { actor = Some(a); em.stat("init-args-share-definitions"); } }
                 let text = program(&env, &actor);
                 let h = sx::hex(text.as_bytes());
                 let nt = !env.is_empty();
@@ -307,6 +340,14 @@ pub fn generate(prop: &str, thorough: bool, r: &mut Rng, em: &mut Emit) {
                 if line.is_empty() { continue; }
                 em.case_nt("c19.esc_doc", &[sx::hex(line.as_bytes())], true);
             }
+            // reserved words of each target used as names (the tables are the targets' own, copied here: dropping a word from the
+            // generator's table, or failing to find it there, lets the word through)
+            const JS_KW: &[&str] = &["abstract","arguments","await","boolean","break","byte","case","catch","char","class","const","continue","debugger","default","delete","do","double","else","enum","eval","export","extends","false","final","finally","float","for","function","goto","if","implements","import","in","instanceof","int","interface","let","long","native","new","null","package","private","protected","public","return","short","static","super","switch","synchronized","this","throw","throws","transient","true","try","typeof","var","void","volatile","while","with","yield"];
+            const MO_KW: &[&str] = &["actor","and","async","assert","await","break","case","catch","class","continue","composite","debug","debug_show","else","false","flexible","for","from_candid","func","if","in","import","module","not","null","object","or","label","let","loop","private","public","query","return","shared","stable","switch","system","try","throw","to_candid","true","type","var","while","with"];
+            const RS_KW: &[&str] = &["as","break","const","continue","crate","else","enum","extern","false","fn","for","if","impl","in","let","loop","match","mod","move","mut","pub","ref","return","self","Self","static","struct","super","trait","true","type","unsafe","use","where","while","async","await","dyn","abstract","become","box","do","final","macro","override","priv","typeof","unsized","virtual","yield","try"];
+            for k in JS_KW { em.case_nt("p.c19.keywords", &["js".into(), k.to_string()], true); em.case_nt("p.c19.keywords", &["ts".into(), k.to_string()], true); }
+            for k in MO_KW { em.case_nt("p.c19.keywords", &["mo".into(), k.to_string()], true); }
+            for k in RS_KW { em.case_nt("p.c19.keywords", &["rs".into(), k.to_string()], true); }
             // Motoko needs identifier method names: hostile comments only
             for doc in ["*/ INJ3CT /*", "\" INJ3CT", "/* INJ3CT", "*/"] {
                 let p = format!("// {doc}\ntype T = record {{\n  // {doc}\n  a : nat;\n}};\n// {doc}\nservice : {{\n  // {doc}\n  f : (T) -> (T) query;\n}}\n");
